@@ -352,6 +352,7 @@ func jxRunCytoscape(c *Ctx) *Violation {
 	case 0, 3:
 		g := &cytoscapejs.GraphElem{}
 		var deferred *Violation
+		var wants []cytoscapejs.ElemType
 		for i := 0; i < nn+ne; i++ {
 			e := cytoscapejs.Element{Data: cytoscapejs.ElemData{ID: jxID(t, jxJSONStrings, i), Attributes: jxAttrs(t)},
 				Selected: jxOpt(t, 4), Selectable: jxOpt(t, 4), Locked: jxOpt(t, 6), Grabbable: jxOpt(t, 6), Scratch: jxScratch(t)}
@@ -375,12 +376,35 @@ func jxRunCytoscape(c *Ctx) *Violation {
 				e.Classes = jxStr(t, jxJSONStrings)
 			}
 			g.Elements = append(g.Elements, e)
-			// Element.Type() is not part of any codec round trip: it is not
-			// checked here (observation recorded in DESIGN.md section 6).
-			_ = want
+			wants = append(wants, want)
 		}
 		g.Layout, g.Style = jxLayoutStyle(t)
 		if v := jxRun(c, jxCytoElem, g, nil); v != nil {
+			return v
+		}
+		// the kind of an element survives the round trip: what was written as
+		// an edge reads back as an element whose Type() is EdgeElement
+		// ("It returns an error if the Element Group is invalid or does not
+		// match the Element Data, or if the Element Data is an incomplete edge")
+		if v := c.Guard("GraphElem/element-type", func() string { return fmt.Sprintf("%d elements", len(g.Elements)) }, func() *Violation {
+			data, err := json.Marshal(g)
+			if err != nil {
+				return nil
+			}
+			var back cytoscapejs.GraphElem
+			if err := json.Unmarshal(data, &back); err != nil || len(back.Elements) != len(wants) {
+				return nil // reported by the round trip above
+			}
+			c.Case("control", false, hashBytes(data), 7)
+			c.Oracle("element-type-roundtrip")
+			for i, e := range back.Elements {
+				got, err := e.Type()
+				if err != nil || got != wants[i] {
+					return viol("cytoscapejs/GraphElem/element-type", "element %d written as %s with group %q reads back with Type() = %v, %v\n%s", i, []string{"a node", "an edge"}[wants[i]], g.Elements[i].Group, got, err, data)
+				}
+			}
+			return nil
+		}); v != nil {
 			return v
 		}
 		return deferred
